@@ -160,7 +160,23 @@ func mkSym(name string, s Sort) Term {
 	return Term{S: name, Sort: s, Syms: []string{name}}
 }
 
+// maxTermBytes bounds the text of a single term. Terms are trees, not DAGs: code that
+// squares a value in a loop doubles the term every iteration; such a path is given up
+// (inconclusive) long before it can exhaust memory.
+const maxTermBytes = 4 << 20
+
+func checkTermSize(n int) {
+	if n > maxTermBytes {
+		panic(engineErr(fmt.Sprintf("term larger than %d bytes (repeated self-composition in a loop?)", maxTermBytes)))
+	}
+}
+
 func app(s Sort, f string, xs ...Term) Term {
+	n := 0
+	for _, x := range xs {
+		n += len(x.S)
+	}
+	checkTermSize(n)
 	var b strings.Builder
 	b.WriteByte('(')
 	b.WriteString(f)
@@ -310,6 +326,7 @@ func mkIte(c, a, b Term) Term {
 			return mkAnd(c, a)
 		}
 	}
+	checkTermSize(len(c.S) + len(a.S) + len(b.S))
 	return Term{S: "(ite " + c.S + " " + a.S + " " + b.S + ")", Sort: a.Sort, Syms: symsOf(c, a, b), ite: &iteParts{c, a, b}}
 }
 
@@ -529,6 +546,7 @@ func fpBin(op string, a, b Term) Term {
 			return mkFP(x / y)
 		}
 	}
+	checkTermSize(len(a.S) + len(b.S))
 	return Term{S: "(" + op + " RNE " + a.S + " " + b.S + ")", Sort: SFP, Syms: symsOf(a, b)}
 }
 
